@@ -542,6 +542,11 @@ func main() {
 	witnessCases(run)
 	matrixCases(run)
 	gridCases(run)
+	nb := 60
+	if args.Tier == "thorough" {
+		nb = 400
+	}
+	buildRaceCases(run, nb)
 	srv.Stop()
 	run.Finish("check_all")
 }
